@@ -311,13 +311,13 @@ kernel_harness!(c08_first_b61, c08_middle_b61, c08_final_b61, c08_digit_b61, 61)
 kernel_harness!(c08_first_b62, c08_middle_b62, c08_final_b62, c08_digit_b62, 62);
 
 // ------------------------------------------------------------------------------------------------
-// C09 ring splitting / merging (bounded in shape: N = 8 -> 2 parts of 4 / 4 parts of 2; limb contents symbolic)
+// C09 ring splitting / merging (bounded in shape: N = 4 -> 2 parts of 2, N = 8 -> 4 parts of 2; limb contents symbolic)
 //   split: part_i[k] == a[g*k + i];   merge(split(a)) == a  ("merging the parts of a split returns the original")
 // ------------------------------------------------------------------------------------------------
 fn split_merge_laws<const N: usize, const G: usize, const M: usize>() {
     use crate::reference::vec_znx::{vec_znx_merge_rings, vec_znx_split_ring};
     use poulpy_hal::layouts::{VecZnx, ZnxView, ZnxViewMut};
-    let size = 2usize;
+    let size = 1usize;
     let mut a: VecZnx<Vec<u8>> = VecZnx::alloc(N, 1, size);
     for x in a.raw_mut().iter_mut() {
         *x = kani::any();
@@ -360,8 +360,8 @@ fn split_merge_laws<const N: usize, const G: usize, const M: usize>() {
 #[kani::proof]
 #[kani::unwind(18)]
 #[kani::stub(alloc::fmt::format, fmt_stub)]
-fn c09_split_merge__n8_g2() {
-    split_merge_laws::<8, 2, 4>();
+fn c09_split_merge__n4_g2() {
+    split_merge_laws::<4, 2, 2>();
 }
 
 #[kani::proof]
@@ -471,6 +471,7 @@ mod c07 {
 
     #[kani::proof]
     #[kani::unwind(6)]
+    #[kani::solver(kissat)]
     fn c07_c_from_znx64_residues() {
         let x: i64 = kani::any();
         let mut res = [0u32; 8];
@@ -487,6 +488,7 @@ mod c07 {
 
     #[kani::proof]
     #[kani::unwind(6)]
+    #[kani::solver(kissat)]
     fn c07_c_from_b_consistent() {
         let xb: [u64; 4] = kani::any();
         let mut res = [0u32; 8];
@@ -501,6 +503,7 @@ mod c07 {
 
     #[kani::proof]
     #[kani::unwind(6)]
+    #[kani::solver(kissat)]
     fn c07_add_bbb_no_overflow_and_residues() {
         let x: [u64; 4] = kani::any();
         let y: [u64; 4] = kani::any();
@@ -517,6 +520,7 @@ mod c07 {
     /// CRT: reconstruct(residues(x)) == x for every i64 (symmetric representative) — the 128-bit one (thorough tier)
     #[kani::proof]
     #[kani::unwind(6)]
+    #[kani::solver(kissat)]
     fn c07_crt_round_trip_i64() {
         let x: i64 = kani::any();
         let mut b = [0u64; 4];
@@ -799,4 +803,58 @@ mod c11_ak {
     ak_dft_apply!(c11_ak_dft_apply__a2_r3_step1_off0, 2, 3, 1, 0);
     ak_dft_apply!(c11_ak_dft_apply__a3_r3_step2_off0, 3, 3, 2, 0);
     ak_dft_apply!(c11_ak_dft_apply__a2_r2_step1_off1, 2, 2, 1, 1);
+
+    // ---- vmp_apply_dft_to_dft with limb_offset: the numeric mat-vec kernels stay concrete (both runs build the same
+    // floating-point expression from the same inputs, so equality is structural); pre-states of `res` and scratch differ.
+    fn vmp_two_runs<const A_SIZE: usize, const ROWS: usize, const P_SIZE: usize, const R_SIZE: usize, const LIMB_OFFSET: usize>() {
+        use poulpy_hal::api::{ScratchOwnedAlloc, ScratchOwnedBorrow, VmpApplyDftToDft, VmpApplyDftToDftTmpBytes, VmpPMatAlloc};
+        use poulpy_hal::layouts::ScratchOwned;
+        const N: usize = 8;
+        let module: Module<crate::FFT64Ref> = Module::<crate::FFT64Ref>::new(N as u64);
+        let mut a = module.vec_znx_dft_alloc(1, A_SIZE);
+        for x in a.raw_mut().iter_mut() {
+            *x = f64::from_bits(kani::any());
+        }
+        let mut pmat = module.vmp_pmat_alloc(ROWS, 1, 1, P_SIZE);
+        for x in pmat.raw_mut().iter_mut() {
+            *x = f64::from_bits(kani::any());
+        }
+        let mut r1 = module.vec_znx_dft_alloc(1, R_SIZE);
+        let mut r2 = module.vec_znx_dft_alloc(1, R_SIZE);
+        for x in r1.raw_mut().iter_mut() {
+            *x = f64::from_bits(kani::any());
+        }
+        for x in r2.raw_mut().iter_mut() {
+            *x = f64::from_bits(kani::any());
+        }
+        let bytes = module.vmp_apply_dft_to_dft_tmp_bytes(R_SIZE, A_SIZE, ROWS, 1, 1, P_SIZE);
+        let mut s1: ScratchOwned<crate::FFT64Ref> = ScratchOwned::alloc(bytes);
+        let mut s2: ScratchOwned<crate::FFT64Ref> = ScratchOwned::alloc(bytes);
+        for x in s2.data.as_mut().iter_mut() {
+            *x = 0x41;
+        }
+        module.vmp_apply_dft_to_dft(&mut r1, &a, &pmat, LIMB_OFFSET, s1.borrow());
+        module.vmp_apply_dft_to_dft(&mut r2, &a, &pmat, LIMB_OFFSET, s2.borrow());
+        let mut t = 0;
+        while t < N * R_SIZE {
+            assert!(r1.raw()[t].to_bits() == r2.raw()[t].to_bits(), "C11:vmp output independent of prior contents of res and of scratch (limb_offset)");
+            t += 1;
+        }
+    }
+    macro_rules! ak_vmp {
+        ($name:ident, $a:expr, $rows:expr, $ps:expr, $r:expr, $lo:expr) => {
+            #[kani::proof]
+            #[kani::unwind(34)]
+            #[kani::stub(alloc::fmt::format, super::fmt_stub)]
+            #[kani::stub(crate::reference::fft64::reim::table_fft::fill_fft4_omegas, fill_stub)]
+            #[kani::stub(crate::reference::fft64::reim::table_ifft::fill_ifft4_omegas, fill_stub)]
+            fn $name() {
+                vmp_two_runs::<$a, $rows, $ps, $r, $lo>();
+            }
+        };
+    }
+    ak_vmp!(c11_ak_vmp_apply__a2_rows2_p3_r3_lo1, 2, 2, 3, 3, 1);
+    ak_vmp!(c11_ak_vmp_apply__a2_rows2_p3_r3_lo2, 2, 2, 3, 3, 2);
+    ak_vmp!(c11_ak_vmp_apply__a2_rows2_p3_r3_lo0, 2, 2, 3, 3, 0);
+    ak_vmp!(c11_ak_vmp_apply__a3_rows2_p2_r3_lo1, 3, 2, 2, 3, 1);
 }
